@@ -123,6 +123,19 @@ Theorem C15x_step_law_at_every_loop_head :
     prob (fun o => N.eqb (fst o) u) (law (jump choice s')) == rate (cstat s') u / total_rate g rate (cstat s').
 Proof. exact (crun_law g rate choice infl rstats tmax full Hnd rate_nonneg infl_in covers). Qed.
 
+(* no Python-level error, for every draw script: in plain mode, or in full-data mode when
+   return_statuses contains the initial statuses and every answer of the chooser (and G has a
+   node), a run ends in Ok, or the script / the model's fuel ran out.  (C15_every_run leaves the
+   full-data constructor's KeyError / IndexError open; this closes it inside that domain.) *)
+Theorem C15x_never_a_python_error :
+  forall (ic : node -> option N) fuel ds e tr,
+  (forall u, In u (gnodes g) -> ic u <> None) ->
+  full = false \/
+  (gnodes g <> [] /\ (forall u s, In u (gnodes g) -> ic u = Some s -> In s rstats) /\ (forall st u, In (choice st u) rstats)) ->
+  exec (complex g rate choice infl rstats tmin tmax full ic fuel) ds [] = (Err e, tr) ->
+  e = OutOfDraws \/ e = OutOfFuel.
+Proof. exact (complex_exec_never_crashes g rate choice infl rstats tmin tmax full Hnd rate_nonneg infl_in covers). Qed.
+
 End C15x.
 
 (* non-vacuity: the threshold contagion on a triangle of Props/C15.v satisfies every hypothesis
@@ -144,4 +157,5 @@ Print Assumptions C15x_log_times.
 Print Assumptions C15x_log_first_event.
 Print Assumptions C15x_every_loop_head_is_good.
 Print Assumptions C15x_step_law_at_every_loop_head.
+Print Assumptions C15x_never_a_python_error.
 Print Assumptions C15x_example.
